@@ -218,14 +218,14 @@ class PreprocessorData:
             macro_resolve_error(
                 self.curr_tree,
                 f"'pad' requires the current address to be op-aligned (a multiple of 2*w={op_size} bits), "
-                f"but it's currently {self.curr_address} bits "
+                f"but it's currently {int_to_str(self.curr_address)} bits "
                 f"(this usually happens after a 'reserve' or 'segment' that isn't 2*w-aligned).",
             )
         ops_to_pad = (-self.curr_address // op_size) % ops_alignment
         if self.curr_address + ops_to_pad * op_size > (1 << self.memory_width):
             macro_resolve_error(
                 self.curr_tree,
-                f"'pad {int_to_str(ops_alignment)}' at address {self.curr_address} needs {int_to_str(ops_to_pad)} padding ops, "
+                f"'pad {int_to_str(ops_alignment)}' at address {int_to_str(self.curr_address)} needs {int_to_str(ops_to_pad)} padding ops, "
                 f"which exceeds the {self.memory_width}-bits memory-width.",
             )
         self.curr_address += ops_to_pad * op_size
